@@ -301,6 +301,14 @@ func (c *Ctx) TokRel() *TokRel {
 		}
 		return "*ast." + n.Obj().Name()
 	}
+	loadSets := map[ssa.Value]tokSet{}
+	unionSet := func(a, b tokSet) tokSet {
+		if a.s == nil && !a.top {
+			return b.clone()
+		}
+		u, _ := a.union(b)
+		return u
+	}
 	for iter := 0; iter < 40; iter++ {
 		changed := false
 		for _, fn := range pfuncs {
@@ -316,6 +324,14 @@ func (c *Ctx) TokRel() *TokRel {
 				st := parserState{cur: in[b].cur.clone(), peek: in[b].peek.clone(), reached: true}
 				for _, instr := range b.Instrs {
 					switch x := instr.(type) {
+					case *ssa.UnOp:
+						// a token read now and stored into a node later (operator := p.curToken; ...; node.Token = operator):
+						// the set is the one at the read
+						if isTokLoad(x, curIdx) {
+							loadSets[x] = unionSet(loadSets[x], st.cur)
+						} else if isTokLoad(x, peekIdx) {
+							loadSets[x] = unionSet(loadSets[x], st.peek)
+						}
 					case *ssa.Store:
 						if tn := nodeTypeOfTokenAddr(x.Addr); tn != "" {
 							if fn.Name() == "parseFunctionParameters" {
@@ -325,7 +341,10 @@ func (c *Ctx) TokRel() *TokRel {
 								tr.ParamPosition = append(tr.ParamPosition, tn)
 								continue
 							}
+							ls, seenLoad := loadSets[x.Val]
 							switch {
+							case seenLoad && (isTokLoad(x.Val, curIdx) || isTokLoad(x.Val, peekIdx)):
+								addTok(tn, ls)
 							case isTokLoad(x.Val, curIdx):
 								addTok(tn, st.cur)
 							case isTokLoad(x.Val, peekIdx):
